@@ -22,7 +22,7 @@ def tests_summary(out):
 
 def verify(mdir):
     patch = os.path.join(mdir, 'patch.diff'); demo = os.path.join(mdir, 'demo.rs')
-    wt = '/tmp/seedcheck'
+    wt = '/tmp/seedcheck-' + os.path.basename(os.path.normpath(mdir))      # one scratch worktree per seeded change: verifications may run in parallel
     sh(f'git -C {REPO} worktree remove --force {wt}'); shutil.rmtree(wt, ignore_errors=True); sh(f'git -C {REPO} worktree prune')
     rc, out = sh(f'git -C {REPO} worktree add -q --detach {wt} HEAD'); assert rc == 0, out
     res = {}
